@@ -97,8 +97,9 @@ type Outcome struct {
 	// checksum (silently wrong code)
 	Wrong string `json:"wrong,omitempty"`
 	// NonTrivial by the rule of the case's kind
-	NonTrivial bool   `json:"nontrivial,omitempty"`
-	Note       string `json:"note,omitempty"`
+	NonTrivial bool    `json:"nontrivial,omitempty"`
+	Note       string  `json:"note,omitempty"`
+	Secs       float64 `json:"secs,omitempty"` // wall time of the case inside the child
 }
 
 // Job is what a child process is asked to do.
